@@ -81,3 +81,93 @@ def digit_shift(pe, x, m):
 
 
 NS['digit_shift'] = digit_shift
+
+
+def iskind(pe, v, kind):
+	return isinstance(v, SArr) and v.kind == kind
+
+
+def isbyteslike(pe, v):
+	return isinstance(v, SArr) and v.kind in ('bytes', 'bytearray')
+
+
+NS['iskind'] = iskind
+NS['isbyteslike'] = isbyteslike
+
+
+# ---- sorted k-mer index sets (C02, C05, C15) ----------------------------------------------------------
+
+def inter(pe, a, b, i):
+	"""number of positions i' < i of a whose element occurs in b"""
+	a, b = _arr(a), _arr(b)
+	return SInt(S.inter(a.arr, a.off, b.arr, b.off, b.length, int_term(i)))
+
+
+def sorted_unique(pe, a):
+	a = _arr(a)
+	return SBool(S.strictly_increasing(a.arr, a.off, a.length))
+
+
+def nonneg(pe, a):
+	a = _arr(a)
+	return SBool(S.elems_in_range(a.arr, a.off, a.length, 0, 2 ** 64))
+
+
+def jdist(pe, s, u):
+	return SF32(S.jdist(int_term(s), int_term(u)))
+
+
+def D(pe, a, b):
+	"""THE distance of two sorted index arrays: |A xor B| / |A or B| as computed in binary32 (0 for two empty sets)"""
+	a, b = _arr(a), _arr(b)
+	it = S.inter(a.arr, a.off, b.arr, b.off, b.length, a.length)
+	return SF32(S.jdist(a.length + b.length - 2 * it, a.length + b.length - it))
+
+
+def one_minus(pe, d):
+	return SF32(fsub(i2f(z3.IntVal(1)), d.term))
+
+
+def tail_lemma(pe, a, b, i, n):
+	"""instance of lemma C02/lemma/tail: no element of a[i..n) occurs in b  ==>  inter(n) == inter(i)"""
+	a, b = _arr(a), _arr(b)
+	i, n = int_term(i), int_term(n)
+	p = z3.Int(fresh_name('p'))
+	none = z3.ForAll([p], z3.Implies(z3.And(i <= p, p < n), z3.Not(S.member(b.arr, b.off, b.length, z3.Select(a.arr, a.off + p)))))
+	return SBool(z3.Implies(z3.And(0 <= i, i <= n, none),
+		S.inter(a.arr, a.off, b.arr, b.off, b.length, n) == S.inter(a.arr, a.off, b.arr, b.off, b.length, i)))
+
+
+def same_values(pe, a, b):
+	return same_bytes(pe, a, b)
+
+
+for _n in ('inter', 'sorted_unique', 'nonneg', 'jdist', 'D', 'one_minus', 'tail_lemma', 'same_values'):
+	NS[_n] = globals()[_n]
+
+
+def _elem(v):
+	v = _arr(v)
+	return v.elem
+
+
+def dtype_ok(pe, a):
+	"""dtype is a 16/32/64-bit signed or unsigned integer"""
+	e = _elem(a)
+	return e is not None and e.kind == 'int' and e.bits in (16, 32, 64)
+
+
+def is_unsigned_coords(pe, a):
+	e = _elem(a)
+	return e is not None and e.kind == 'int' and e.bits in (16, 32, 64) and not e.signed
+
+
+def nonneg(pe, a):
+	"""all entries are >= 0 (stated for every cell of the backing array: cells outside [0, len) are ghost)"""
+	a = _arr(a)
+	p = z3.Int(fresh_name('p'))
+	return SBool(z3.ForAll([p], z3.Select(a.arr, p) >= 0))
+
+
+for _n in ('dtype_ok', 'is_unsigned_coords', 'nonneg'):
+	NS[_n] = globals()[_n]
